@@ -12,6 +12,7 @@
 #include <time.h>
 #include <sys/mman.h>
 #include <sys/wait.h>
+#include <signal.h>
 #include "d_string.h"
 
 typedef struct { char *b; size_t n; } ref;
@@ -95,7 +96,7 @@ static void print_hist(FILE *o, const hist *h, const opx *last) {
 	fprintf(o, "]");
 }
 /* shared progress for crash attribution */
-typedef struct { hist h; opx last; int active; } progress;
+typedef struct { hist h; opx last; int active; volatile unsigned long ticks; } progress;
 static progress *PR;
 
 static uint64_t *hset; static size_t hcap;
@@ -125,7 +126,7 @@ static int bfs(int maxd, double deadline_s, int only_start) {
 			if (op == REPLACE && pi > 2) continue; if (op == APPEND_C && pi > 2) continue;
 			if (pi == NP - 1 && op != APPEND_ARR) continue;            /* the NUL-containing payload is for the binary append path only */
 			opx o = { op, pi, pk, lk };
-			PR->h = h; PR->last = o; PR->active = 1;
+			PR->h = h; PR->last = o; PR->active = 1; PR->ticks++;
 			DString *d = d_string_new(STARTS[h.start]); ref r = { strdup(STARTS[h.start]), strlen(STARTS[h.start]) }; char why[160] = "";
 			int ok = 1; for (int i = 0; i < h.n && ok == 1; i++) ok = apply(d, &r, h.h[i], why);
 			if (ok != 1 || !same(d, &r, why)) { printf("{\"t\":\"internal\",\"what\":\"replayed prefix diverged: %s\"}\n", why); return 3; }
@@ -166,7 +167,7 @@ static int sweep(void) {
 		for (size_t j = 0; j < L; j++) pay[j] = "abxab"[j % 5]; pay[L] = 0;
 		for (size_t j = 0; j < pre[pk]; j++) prefix[j] = "01234567"[j % 8]; prefix[pre[pk]] = 0;
 		DString *d = d_string_new(prefix); ref r = { strdup(prefix), pre[pk] }; size_t mid = pre[pk] / 2;
-		PR->active = 2; PR->h.n = 0; PR->h.start = 0; PR->last.op = op; PR->last.pi = pk; PR->last.posk = L & 255; PR->last.lenk = L >> 8;
+		PR->ticks++; PR->active = 2; PR->h.n = 0; PR->h.start = 0; PR->last.op = op; PR->last.pi = pk; PR->last.posk = L & 255; PR->last.lenk = L >> 8;
 		switch (op) {
 			case 0: d_string_append(d, pay); r_ins(&r, r.n, pay, L); break;
 			case 1: d_string_append_c_array(d, pay, L); r_ins(&r, r.n, pay, L); break;
@@ -186,6 +187,18 @@ static int sweep(void) {
 	PR->active = 0;
 	printf("{\"t\":\"sweep\",\"cases\":%ld,\"violations\":%ld,\"max_payload\":%d}\n", n, bad, SWEEP_MAX);
 	return 0;
+}
+/* wait for a child, killing it when it makes no progress (one transition that never returns) for HANG_S seconds */
+#define HANG_S 20
+static int wait_watch(pid_t pid, progress *q, int *hung) {
+	int st; unsigned long last = q->ticks; double idle = 0; *hung = 0;
+	for (;;) {
+		pid_t r = waitpid(pid, &st, WNOHANG);
+		if (r == pid) return st;
+		usleep(100000);
+		if (q->ticks != last) { last = q->ticks; idle = 0; } else idle += 0.1;
+		if (idle > HANG_S && q->active) { kill(pid, SIGKILL); waitpid(pid, &st, 0); *hung = 1; return st; }
+	}
 }
 const char *__asan_default_options(void) { return "detect_leaks=0:allocator_may_return_null=1"; }
 const char *__ubsan_default_options(void) { return "print_stacktrace=1:halt_on_error=1"; }
@@ -208,13 +221,13 @@ int main(int argc, char **argv) {
 	}
 	int worst = 0;
 	{ pid_t sp = fork(); if (sp == 0) { PR = &PRS[NSTART]; int rc = sweep(); fflush(stdout); _exit(rc); }
-	  int st; waitpid(sp, &st, 0);
-	  if (!(WIFEXITED(st) && WEXITSTATUS(st) == 0)) { progress *q = &PRS[NSTART]; printf("{\"t\":\"crash\",\"how\":\"%s %d\",\"start\":\"sweep prefix kind %d\",\"history\":[\"sweep op %d payload=%d bytes\"],\"op\":\"sweep-%d\"}\n", WIFSIGNALED(st) ? "signal" : "exit", WIFSIGNALED(st) ? WTERMSIG(st) : WEXITSTATUS(st), q->last.pi, q->last.op, q->last.posk + 256 * q->last.lenk, q->last.op); } }
+	  int hung; int st = wait_watch(sp, &PRS[NSTART], &hung);
+	  if (!(WIFEXITED(st) && WEXITSTATUS(st) == 0)) { progress *q = &PRS[NSTART]; printf("{\"t\":\"crash\",\"how\":\"%s %d\",", hung ? "hang after" : WIFSIGNALED(st) ? "signal" : "exit", hung ? HANG_S : WIFSIGNALED(st) ? WTERMSIG(st) : WEXITSTATUS(st)); printf("\"start\":\"sweep prefix kind %d\",\"history\":[\"sweep op %d payload=%d bytes\"],\"op\":\"sweep-%d\"}\n", q->last.pi, q->last.op, q->last.posk + 256 * q->last.lenk, q->last.op); } }
 	for (int k = 0; k < NSTART; k++) {
-		int st; waitpid(pids[k], &st, 0);
+		int hung; int st = wait_watch(pids[k], &PRS[k], &hung);
 		FILE *f = fopen(outf[k], "r"); char buf[8192]; size_t n; if (f) { while ((n = fread(buf, 1, sizeof buf, f)) > 0) fwrite(buf, 1, n, stdout); fclose(f); unlink(outf[k]); }
 		if (WIFEXITED(st) && (WEXITSTATUS(st) == 0 || WEXITSTATUS(st) == 3)) { if (WEXITSTATUS(st) > worst) worst = WEXITSTATUS(st); continue; }
-		printf("{\"t\":\"crash\",\"how\":\"%s %d\",", WIFSIGNALED(st) ? "signal" : "exit", WIFSIGNALED(st) ? WTERMSIG(st) : WEXITSTATUS(st));
+		printf("{\"t\":\"crash\",\"how\":\"%s %d\",", hung ? "hang after" : WIFSIGNALED(st) ? "signal" : "exit", hung ? HANG_S : WIFSIGNALED(st) ? WTERMSIG(st) : WEXITSTATUS(st));
 		print_hist(stdout, &PRS[k].h, PRS[k].h.n || PRS[k].last.op ? &PRS[k].last : NULL); printf(",\"op\":\"%s\"}\n", opn[PRS[k].last.op]);
 	}
 	return worst;
